@@ -479,10 +479,9 @@ if "reason.unwrap_or(CrashReason::Unknown(exception_code, exception_flags))" not
     die("from_exception: default reason changed")
 # the fragments of the three family functions the GPF test depends on
 fw = norm(fn_body(mdrs, r"pub fn from_windows_exception\(", "from_windows_exception"))
-if ("let mut reason = CrashReason::from_windows_code(exception_code);" not in fw or
-        "CrashReason::WindowsGeneral(ExceptionCodeWindows::EXCEPTION_ACCESS_VIOLATION) => { if record.number_parameters >= 1 { "
-        "if let Some(ty) = err::ExceptionCodeWindowsAccessType::from_u64(info[0]) { reason = CrashReason::WindowsAccessViolation(ty); } } }" not in fw):
-    die("from_windows_exception: the EXCEPTION_ACCESS_VIOLATION refinement changed:\n" + fw[:1500])
+# (the EXCEPTION_ACCESS_VIOLATION refinement itself — its number_parameters guard — is compiled by translate/c19_src.py: g_win_av_guard)
+if "let mut reason = CrashReason::from_windows_code(exception_code);" not in fw:
+    die("from_windows_exception: no longer starts from CrashReason::from_windows_code(exception_code):\n" + fw[:1500])
 fwc = norm(fn_body(mdrs, r"pub fn from_windows_code\(exception_code: u32\) -> CrashReason\s*\{", "from_windows_code"))
 if not fwc.startswith("if let Some(err) = err::ExceptionCodeWindows::from_u32(exception_code) { Self::WindowsGeneral(err) }"):
     die("from_windows_code changed: " + fwc)
